@@ -30,7 +30,7 @@ func init() {
 		}}},
 		Run: func(c *core.Ctx, idx int) { runHistory(c, idx, false) },
 		Floors: func(t string) map[string]int64 {
-			return map[string]int64{"walker.root_collapse": 100, "walker.height>=3": 50, "hist.drained_to_empty": 50, "delete.absent": 1000, "delete.duplicate_object": 100, "query.touching": 1000, "query.degenerate": 1000, "obj.*Bounds": 1000, "obj.Point": 1000, "obj.harness_pointer": 1000}
+			return map[string]int64{"walker.root_collapse": 100, "walker.height>=3": 50, "hist.drained_to_empty": 50, "delete.absent": 1000, "delete.duplicate_object": 100, "query.touching": 1000, "query.unbounded": 1000, "obj.unbounded_box": 100, "query.degenerate": 1000, "obj.*Bounds": 1000, "obj.Point": 1000, "obj.harness_pointer": 1000}
 		},
 	})
 	core.Register(&core.Prop{
@@ -143,6 +143,24 @@ func (h *hist) newObj() stored {
 		}
 		e := geom.NewBounds()
 		return stored{obj: &boxObj{bx: e, id: h.nextID}, box: *e, id: h.nextID}
+	}
+	if !h.nn && h.scale == 1 && r.Chance(0.01) {
+		// a stored box that is unbounded on one or more sides (the envelope of a geometry with an
+		// infinite ordinate): it shares a point with every query box that reaches into it
+		inf := math.Inf(1)
+		ub := geom.Bounds{Min: geom.Point{X: x0, Y: y0}, Max: geom.Point{X: x0 + 3, Y: y0 + 3}}
+		switch r.Intn(4) {
+		case 0:
+			ub.Min.X = -inf
+		case 1:
+			ub.Min.Y = -inf
+		case 2:
+			ub.Max.X = inf
+		default:
+			ub.Min.X, ub.Min.Y = -inf, -inf
+		}
+		h.c.Count("obj.unbounded_box")
+		return stored{obj: &ub, box: ub, id: h.nextID}
 	}
 	if !h.nn && h.scale == 1 && r.Chance(0.01) {
 		// a box so large that its area (and every enlargement computed from it) overflows
@@ -296,6 +314,11 @@ func inModel(model []stored, obj geom.Geom) bool {
 }
 
 func closedIntersect(a, b *geom.Bounds) bool {
+	// an empty box (Max below Min on an axis, e.g. the bounds of an empty polygon) holds no point,
+	// whatever it is compared with - also an unbounded box
+	if a.Max.X < a.Min.X || a.Max.Y < a.Min.Y || b.Max.X < b.Min.X || b.Max.Y < b.Min.Y {
+		return false
+	}
 	return a.Min.X <= b.Max.X && b.Min.X <= a.Max.X && a.Min.Y <= b.Max.Y && b.Min.Y <= a.Max.Y
 }
 
@@ -345,10 +368,27 @@ func (h *hist) afterOp() {
 	}
 	// queries
 	r := h.r
-	for q := 0; q < 6; q++ {
+	for q := 0; q < 7; q++ {
 		var qb geom.Bounds
 		kind := ""
 		switch q {
+		case 6:
+			// unbounded query boxes: a half-plane, a quadrant, a strip or the whole plane
+			inf := math.Inf(1)
+			qb = geom.Bounds{Min: geom.Point{X: -inf, Y: -inf}, Max: geom.Point{X: inf, Y: inf}}
+			switch r.Intn(5) {
+			case 0:
+				qb.Max.X = h.coord()
+			case 1:
+				qb.Min.Y = h.coordY()
+			case 2:
+				qb.Min.X, qb.Max.Y = h.coord(), h.coordY()
+			case 3:
+				y := h.coordY()
+				qb.Min.Y, qb.Max.Y = y, y+2*h.sy
+			}
+			kind = "unbounded"
+			c.Count("query.unbounded")
 		case 0:
 			qb = geom.Bounds{Min: geom.Point{X: -1e9 * h.scale, Y: -1e9 * h.sy}, Max: geom.Point{X: 1e9 * h.scale, Y: 1e9 * h.sy}}
 			if h.scale > 1 {
